@@ -49,11 +49,15 @@ theorem pObject_spec (k : Kind) (ch : OplSpec.Choices) (m : Meta) (hm : MetaOK m
       loopFuel_ge (objField k) ((cfMeta ch m ++ extra).length + 1)
         (by rw [List.length_append, hl7]; omega) {} rest fin hloop
     obtain ⟨htags, hmeta⟩ := meta_final ch m fin (fun p hp => hall p (List.mem_append_left _ hp))
+    have hsu : setUserCheck (fin.user.getD []) = .ok () := by
+      have hu : fin.user.getD [] = m.user := congrArg Meta.user hmeta
+      have hl := strOK_len hm.user
+      rw [hu]; unfold setUserCheck; simp [maxString]; omega
     unfold pObject
     rw [hidp rest hsep.noDigit]
     simp only [bindE_ok]
     rw [hfuel]
-    simp only [bindE_ok, htags, hmeta]
+    simp only [bindE_ok, hsu, htags, hmeta]
     cases k <;> rfl
 
 /-! ### nodes -/
